@@ -158,6 +158,7 @@ fn one_run(st: &mut Stats, c: &Case, pseed: u64, sigs: &mut HashSet<u64>, perms:
     let dr = DateRange::from(s..=e);
     let expected: RangeMap = prayer_times_dt_rng(&p, l, &dr);
     st.evaluations += 1;
+    st.tick(); // progress per run (a case may hold dozens of repetitions of a 6000-day range)
     verif::set_parallelism_override(c.workers);
     verif::set_perturbation(pseed, c.max_sleep_us);
     verif::start_recording();
@@ -227,6 +228,10 @@ fn one_run(st: &mut Stats, c: &Case, pseed: u64, sigs: &mut HashSet<u64>, perms:
     let parallel = log.iter().any(|e| e.point == "parallel");
     st.count(if parallel { "runs.parallel_path" } else { "runs.sequential_path" });
     match got {
+        Err(pm) if pm.contains("failed to spawn thread") => {
+            // the OS refused a thread (resource limits of the sandbox): says nothing about the property
+            st.count("environment.thread_spawn_refused(not judged)");
+        }
         Err(pm) => {
             st.violate("panic", c, json!({"pseed": pseed, "panic": pm, "events": ev_json(&log)}));
         }
@@ -509,7 +514,9 @@ pub fn run(ctx: &Ctx, st: &mut Stats) {
                     last = Instant::now();
                     cpu_mark = crate::rec::cpu_s();
                     st.evaluations += 6;
-                    if !ok {
+                    if !ok && pm.contains("failed to spawn thread") {
+                        st.count("environment.thread_spawn_refused(not judged)");
+                    } else if !ok {
                         st.violate(if pm.is_empty() { "parallel_differs_from_sequential" } else { "panic" }, &desc, json!({"caller": i, "panic": pm, "under": "concurrent callers"}));
                     }
                 }
